@@ -23,7 +23,7 @@ THEOREMS = ["field_get_set", "field_frame", "field_rejects", "register_rejects",
             "reg_get_set", "group_views_agree", "group_write_defines_subs", "export_parse_id",
             "config_roundtrip_partial",
             "queries_pure", "run_preserves_wf", "rejected_write_keeps_state",
-            "alt_width_reverse_refuted", "alt_width_group_stale_refuted", "alt_width_revsub_refuted",
+            "alt_width_reverse_refuted", "alt_width_revsub_refuted",
             "alt_width_big_endian_export_refuted"]
 OPN = {1: "set_value", 2: "bitfield.set_value", 3: "bitfield.set_enum_value", 4: "reset_value", 5: "reset_values", 6: "parse",
        7: "parse(export())", 8: "load_yml_config", 9: "get_value", 10: "bitfield.get_value", 11: "bitfield.get_enum_value",
@@ -515,7 +515,7 @@ def disjoint(f, g):
     return f["off"] + f["width"] <= g["off"] or g["off"] + g["width"] <= f["off"]
 
 
-def alt_mechs(B, t, dest, x, raw, export=False, xraw=None):
+def alt_mechs(B, t, dest, x, raw, export=False, xraw=None, post=None):
     """Registers with alternative widths: name the recorded mechanisms that apply to writing x into target t of a file in
     state `dest` (and, with export=True, to exporting the raw value xraw big-endian); 'unexplained' when none applies."""
     r = B["regs"][t[0]]
@@ -532,8 +532,11 @@ def alt_mechs(B, t, dest, x, raw, export=False, xraw=None):
             if r["rev_sub"] and a != w:
                 m.append("reversed-sub-order-positions-follow-alt-width")
             sw = r["subs"][0]["width"]
-            if a < w and dest is not None and any(is_int(dest.raw((t[0], j))) and dest.raw((t[0], j)) != 0
-                                                  for j in range(a // sw, len(r["subs"]))):
+            # repaired in /repo (finding C11-F2): sub-registers above the selected width must read 0 after the write;
+            # reported again (as a violation) when old contents survive there
+            up = range(a // sw, len(r["subs"]))
+            if a < w and dest is not None and any(is_int(dest.raw((t[0], j))) and dest.raw((t[0], j)) != 0 for j in up) \
+                    and (post is None or any(post.raw((t[0], j)) != 0 for j in up)):
                 m.append("upper-sub-registers-keep-old-value")
     if export and B["big"] and xraw is not None and is_int(xraw) and alt_of(w, alts, xraw) < w:
         m.append("big-endian-export-pads-short-value-at-the-end")
@@ -615,7 +618,7 @@ def check_write_int(B, before, after, out, t, x, raw, parsed_ok, what, sig_base)
     if got != x:
         why = ""
         if "alt-widths" in cls:
-            why = ":" + alt_mechs(B, t, before, x, raw)
+            why = ":" + alt_mechs(B, t, before, x, raw, post=after)
         res.append((f"{sig_base}-readback:{cls}{why}", f"{what}: wrote {x:#x}, get_value({'raw' if raw else ''}) returns "
                     f"{got if not is_int(got) else hex(got)}"))
     return res
@@ -680,7 +683,7 @@ def oracle_case(B, ops, snap0, trace):
                     if "alt-widths" in cls:
                         base = before.raw(t) if raw else before.log(t)
                         m = ((1 << f["width"]) - 1) << f["off"]
-                        cls += ":" + alt_mechs(B, t, before, ((base & ~m) | (p << f["off"])) if is_int(base) else None, raw)
+                        cls += ":" + alt_mechs(B, t, before, ((base & ~m) | (p << f["off"])) if is_int(base) else None, raw, post=after)
                     if got != field_post(f, p):
                         here.append((f"field-readback:{cls}", f"{what}: field reads {got}, written {field_post(f, p)}"))
                     for g_i, g in enumerate(T["fields"]):
@@ -705,7 +708,7 @@ def oracle_case(B, ops, snap0, trace):
                 got = after.raw(t) if raw else after.log(t)
                 if got != T["reset"]:
                     cls = klass(B, t)
-                    why = (":" + alt_mechs(B, t, before, T["reset"], raw)) if "alt-widths" in cls else ""
+                    why = (":" + alt_mechs(B, t, before, T["reset"], raw, post=after)) if "alt-widths" in cls else ""
                     here.append((f"reset-readback:{cls}{why}", f"{T['name']}.reset_value(raw={bool(raw)}) leaves {got}, reset value is {T['reset']}"))
             here += frame_checks(B, before, after, [t], k)
         if k == 6 and ok:
@@ -720,7 +723,7 @@ def oracle_case(B, ops, snap0, trace):
                 got = after.raw((i,))
                 if got != want:
                     cls = klass(B, (i,))
-                    why = (":" + alt_mechs(B, (i,), before, want, 1)) if "alt-widths" in cls else ""
+                    why = (":" + alt_mechs(B, (i,), before, want, 1, post=after)) if "alt-widths" in cls else ""
                     here.append((f"parse-readback:{cls}{why}", f"parse: bytes at {lo}..{hi} are {want:#x}, {r['name']} reads {got}"))
         if k == 6 and not ok:
             here.append(("parse-raises", "parse of a byte string raised"))
@@ -754,7 +757,7 @@ def oracle_case(B, ops, snap0, trace):
                     if other.regs[i] != ref.regs[i]:
                         cls = klass(B, (i,))
                         if "alt-widths" in cls:
-                            cls += ":" + alt_mechs(B, (i,), before if k == 7 else fresh0, ref.raw((i,)), 1, True, ref.raw((i,)))
+                            cls += ":" + alt_mechs(B, (i,), before if k == 7 else fresh0, ref.raw((i,)), 1, True, ref.raw((i,)), post=other)
                         here.append((f"export-parse-roundtrip:{cls}", f"{name}: {r['name']} is {ref.regs[i][2:4]} before and {other.regs[i][2:4]} after the round trip"))
         if k == 19:
             if not ok:
@@ -775,7 +778,7 @@ def oracle_case(B, ops, snap0, trace):
                     if other.regs[i] != after.regs[i]:
                         cls = klass(B, (i,)) + ("+diff" if op[1] else "")
                         if "alt-widths" in cls:
-                            mech = alt_mechs(B, (i,), fresh0, after.log((i,)) if is_int(after.log((i,))) else None, 0)
+                            mech = alt_mechs(B, (i,), fresh0, after.log((i,)) if is_int(after.log((i,))) else None, 0, post=other)
                             if mech == "unexplained" and "reverse" in cls and other.log((i,)) == after.log((i,)):
                                 # same value, another stored form: the reversal width depends on the magnitude of what was stored
                                 mech = "reversed-value-selects-another-width"
@@ -866,7 +869,8 @@ def run(tier):
     except Exception as ex:  # noqa  (Untranslatable included: fail closed)
         rep.obligation("translate:spsdk/utils/registers.py->Gen/GenRegs.v", False, repr(ex))
     model_ok, mout = vlib.coq_make(["Model/RegsModel.vo"])
-    vlib.check_theorems(rep, PID, THEOREMS, ["Proofs/RegsProofs.vo"])
+    if vlib.check_theorems(rep, PID, THEOREMS, ["Proofs/RegsProofs.vo"]) and tier == "thorough":
+        vlib.coqchk(rep, PID, THEOREMS)
     vlib.audit(rep)
     lap("model and theorems checked")
 
@@ -985,7 +989,7 @@ def run(tier):
         for t in all_targets(B):
             c = klass(B, t)
             classes[c] = classes.get(c, 0) + 1
-    account("fixed witnesses of the recorded findings", 0, nwit, True)
+    account("fixed witnesses of the recorded findings and of the repaired one (C11-F2)", 0, nwit, True)
     account("every bit-field position of a small register x boundary values x every write path", nwit, len(wit), True)
     account("operation sequences on random layouts", len(wit), len(plan), False)
     rep.coverage["operation_kinds"] = opkinds
